@@ -345,6 +345,109 @@ fn lifecycle_case(dir: &Path, rng: &mut Rng, stats: &mut Counts) -> R<String> {
     Ok(desc)
 }
 
+/// Scenario D: hot drop. Every handle is dropped while background work is queued or in flight (a
+/// write has just pushed a tiny memtable over its limit, rotations / flushes / compactions are pending,
+/// optionally a worker is held inside a message by a seeded delay at a hook point). After the last
+/// handle: no worker thread remains, the directory opens again in this process, and every write that
+/// had been acknowledged is there. Several rounds per case on the same directory.
+fn hot_drop_case(dir: &Path, rng: &mut Rng, stats: &mut Counts) -> R<String> {
+    let front = rng.below(3) as u8;
+    let workers = rng.range(1, 4) as usize;
+    let rounds = rng.range(2, 5);
+    let mut expect: std::collections::BTreeMap<String, Vec<u8>> = std::collections::BTreeMap::new();
+    let mut desc = format!("hot-drop front={front} workers={workers} rounds={rounds}");
+    for round in 0..rounds {
+        let point = *rng.pick(&["", "worker.msg.rotate", "worker.msg.flush", "worker.msg.compact", "worker.flush.before_run", "rotate.sealed"]);
+        let delay_us = *rng.pick(&[200u64, 2_000, 50_000, 300_000]);
+        crate::hooks::set_named_delay(if point.is_empty() { None } else { Some((point, delay_us)) });
+        let db = open_any(dir, front, workers).map_err(|e| {
+            Deviation::new(
+                "lock:open-after-last-drop-failed",
+                format!("round {round}: open after every handle of the previous round was dropped returned `{}`", classify_open_err(&e)),
+            )
+        })?;
+        let inner = db.inner();
+        let mt = *rng.pick(&[1_024u64, 1_024, 4_096]);
+        let ks = inner
+            .keyspace("hot", || KeyspaceCreateOptions::default().max_memtable_size(mt))
+            .map_err(|e| Deviation::new("unexpected-error:keyspace", format!("{e:?}")))?;
+        // content of the previous rounds
+        for (k, v) in &expect {
+            let got = ks.get(k).map_err(|e| Deviation::new("unexpected-error:read", format!("{e:?}")))?;
+            if got.as_deref() != Some(&v[..]) {
+                return Err(Deviation::new(
+                    "drop:acknowledged-write-lost",
+                    format!("round {round}: key {k} written in an earlier round (hot drop with pending background work) is {:?} after reopen", got.map(|x| x.len())),
+                ));
+            }
+        }
+        let n = rng.range(1, 40);
+        for i in 0..n {
+            let k = format!("r{round}-{i:03}");
+            let v = vec![b'a' + (i % 26) as u8; rng.range(100, 3_000) as usize];
+            ks.insert(k.clone(), v.clone()).map_err(|e| Deviation::new("unexpected-error:write", format!("{e:?}")))?;
+            expect.insert(k, v);
+        }
+        if rng.chance(1, 3) {
+            let _ = ks.rotate_memtable();
+        }
+        // the drop comes 0..400 microseconds after the last write
+        let spin = rng.below(400);
+        let t = std::time::Instant::now();
+        while (t.elapsed().as_micros() as u64) < spin {
+            std::hint::spin_loop();
+        }
+        if inner.verif_pending_work() > 0 || inner.outstanding_flushes() > 0 {
+            stats.inc("hot_drop.dropped_with_pending_work");
+        }
+        // handles go in random order, some on other threads
+        let mut handles: Vec<Held> = vec![Held::Ks(ks), Held::DbClone(inner), Held::Db(db)];
+        let mut joins = Vec::new();
+        while !handles.is_empty() {
+            let h = handles.swap_remove(rng.usize(handles.len()));
+            if rng.chance(1, 3) {
+                joins.push(std::thread::spawn(move || drop(h)));
+            } else {
+                drop(h);
+            }
+        }
+        for j in joins {
+            let _ = j.join();
+        }
+        stats.inc("hot_drop.rounds");
+        let t0 = std::time::Instant::now();
+        while worker_threads_alive() > 0 && t0.elapsed().as_millis() < 5_000 {
+            std::thread::sleep(std::time::Duration::from_millis(2));
+        }
+        let alive = worker_threads_alive();
+        if alive > 0 {
+            crate::hooks::set_named_delay(None);
+            return Err(Deviation::new(
+                "drop:worker-threads-remain",
+                format!("round {round}: {alive} thread(s) named fjall:worker still exist 5 s after the last handle was dropped (delay {delay_us} us at `{point}`)"),
+            ));
+        }
+        desc.push_str(&format!(" [{point}:{delay_us}us]"));
+    }
+    crate::hooks::set_named_delay(None);
+    // final open + content
+    let db = Database::builder(dir).worker_threads_unchecked(1).open().map_err(|e| {
+        Deviation::new(
+            "lock:open-after-last-drop-failed",
+            format!("open after the last handle was dropped returned `{}`", classify_open_err(&e)),
+        )
+    })?;
+    let ks = db.keyspace("hot", KeyspaceCreateOptions::default).map_err(|e| Deviation::new("unexpected-error:keyspace", format!("{e:?}")))?;
+    for (k, v) in &expect {
+        let got = ks.get(k).map_err(|e| Deviation::new("unexpected-error:read", format!("{e:?}")))?;
+        if got.as_deref() != Some(&v[..]) {
+            return Err(Deviation::new("drop:acknowledged-write-lost", format!("key {k} is {:?} after the final reopen", got.map(|x| x.len()))));
+        }
+    }
+    stats.inc("reopen_after_drop_ok");
+    Ok(desc)
+}
+
 fn make_db_state(dir: &Path, rng: &mut Rng) -> R<String> {
     // states: fresh | with data | after journal rotation | after keyspace deletion
     let state = rng.below(4);
@@ -625,7 +728,8 @@ pub fn main(args: &Args) -> i32 {
             "lifecycle" => 0,
             "marker" => 6,
             "failing" => 9,
-            _ => rng.below(10),
+            "hotdrop" => 10,
+            _ => rng.below(13),
         };
         let dir = fresh_dir("life");
         crate::watchdog::begin_case(idx);
@@ -633,8 +737,10 @@ pub fn main(args: &Args) -> i32 {
         let res = catch_unwind(AssertUnwindSafe(|| match kind {
             0..=5 => lifecycle_case(&dir, &mut rng, &mut stats),
             6..=8 => marker_case(&dir, &mut rng, &mut stats),
-            _ => failing_worker_case(&dir, &mut rng, &mut stats),
+            9 => failing_worker_case(&dir, &mut rng, &mut stats),
+            _ => hot_drop_case(&dir, &mut rng, &mut stats),
         }));
+        crate::hooks::set_named_delay(None);
         crate::watchdog::end_case();
         let res = match res {
             Ok(r) => r,
@@ -644,7 +750,8 @@ pub fn main(args: &Args) -> i32 {
         let scen = match kind {
             0..=5 => "lifecycle",
             6..=8 => "marker",
-            _ => "failing-worker",
+            9 => "failing-worker",
+            _ => "hot-drop",
         };
         total.merge(&stats);
         total.inc("cases");
